@@ -4,7 +4,7 @@ from tools import vlib, t3
 from tools import ks
 
 MODULE = "PropC04"
-THEOREMS = ["C04_code_conforms", "C04_tasks_are_zip", "C04_emitted_exactly_once", "C04_complete", "C04_deterministic", "C04_files_deterministic", "C04_zip_equation", "C04_reference_evaluator_zips", "C04_port_merge", "C04_port_closes_with_last", "C04_port_complete", "C04_port_progress", "C04_nonvacuous", "C04_cone_conforms"]
+THEOREMS = ["C04_code_conforms", "C04_tasks_are_zip", "C04_emitted_exactly_once", "C04_complete", "C04_deterministic", "C04_files_deterministic", "C04_zip_equation", "C04_reference_evaluator_zips", "C04_port_merge", "C04_port_closes_with_last", "C04_port_complete", "C04_port_progress", "C04_nonvacuous", "C04_cone_conforms", "C04_shared_ip_views", "C04_shared_ip_timing_dependent_refuted", "C04_private_copy_deterministic", "C04_shared_ip_nonvacuous"]
 
 
 def special_shapes(rng, i):
